@@ -115,6 +115,8 @@ pub enum FeOp {
 pub enum AnswerKind {
 	Ok,
 	Err,
+	/// ok answers; a batch reply array is sent in reverse order
+	OkRev,
 }
 
 #[derive(Clone, Debug, PartialEq)]
@@ -154,6 +156,23 @@ pub struct CliState {
 	pub client: Arc<Client>,
 }
 
+/// `[entry,...]#s<successes>f<failures>o<into_ok agrees>`; an entry is the JSON value or `E<code>`.
+pub fn batch_summary(b: BatchResponse<Value>) -> String {
+	let items: Vec<String> = b
+		.iter()
+		.map(|e| match e {
+			Ok(v) => v.to_string(),
+			Err(e) => format!("E{}", e.code()),
+		})
+		.collect();
+	let (s, f) = (b.num_successful_calls(), b.num_failed_calls());
+	let n_ok = b.iter().filter(|e| e.is_ok()).count();
+	let into_ok_is_ok = b.clone().into_ok().is_ok();
+	// into_ok() must say Ok exactly when no entry is an error
+	let agrees = into_ok_is_ok == (n_ok == b.len());
+	format!("[{}]#s{s}f{f}o{}", items.join(","), agrees as u8)
+}
+
 pub fn err_str(e: &Error) -> String {
 	format!("{e:?} :: {e}")
 }
@@ -165,7 +184,7 @@ pub fn answer_for(msg: &str, k: usize, kind: &AnswerKind) -> String {
 		let id = req.get("id").cloned().unwrap_or(Value::Null);
 		let is_sub = req.get("method").and_then(|m| m.as_str()) == Some("sub");
 		match kind {
-			AnswerKind::Ok => {
+			AnswerKind::Ok | AnswerKind::OkRev => {
 				if is_sub {
 					json!({"jsonrpc":"2.0","id": id, "result": format!("S{k}")})
 				} else {
@@ -176,7 +195,13 @@ pub fn answer_for(msg: &str, k: usize, kind: &AnswerKind) -> String {
 		}
 	};
 	match &v {
-		Value::Array(a) => Value::Array(a.iter().enumerate().map(|(j, r)| one(r, format!("r{k}.{j}"))).collect()).to_string(),
+		Value::Array(a) => {
+			let mut items: Vec<Value> = a.iter().enumerate().map(|(j, r)| one(r, format!("r{k}.{j}"))).collect();
+			if *kind == AnswerKind::OkRev {
+				items.reverse();
+			}
+			Value::Array(items).to_string()
+		}
 		obj => one(obj, format!("r{k}")).to_string(),
 	}
 }
@@ -249,14 +274,7 @@ pub fn setup(cfg: &CliScenarioCfg) -> CliState {
 						b.insert(&name, rpc_params![j as u64]).unwrap();
 					}
 					let r: Result<BatchResponse<Value>, Error> = client.batch_request(b).await;
-					r.map(|b| {
-						let items: Vec<String> = b.iter().map(|e| match e {
-							Ok(v) => v.to_string(),
-							Err(e) => format!("E{}", e.code()),
-						}).collect();
-						format!("[{}]", items.join(","))
-					})
-					.map_err(|e| err_str(&e))
+					r.map(batch_summary).map_err(|e| err_str(&e))
 				}
 				FeOp::Subscribe => {
 					let r: Result<Subscription<Value>, Error> = client.subscribe("sub", rpc_params![i as u64], "unsub").await;
